@@ -129,7 +129,7 @@ func (st *suStream) Send(r *pb.SubscribeResponse) error {
 		g := fromNoti(v.Update)
 		if len(g.del) > 0 {
 			idx := subIndexOf(g.prefix, g.del[0])
-			st.s.out = append(st.s.out, encPath(idx)+"\x00D@"+strconv.FormatInt(g.ts, 10))
+			st.s.out = append(st.s.out, encPath(idx)+"\x00D@"+strconv.FormatInt(g.ts, 10)+"\x000")
 			viewDeleteIn(st.s.view, idx)
 			break
 		}
@@ -148,10 +148,11 @@ func (st *suStream) Send(r *pb.SubscribeResponse) error {
 			idx = subIndexOf(g.prefix, g.upd[0].path)
 		}
 		resp := kind + renderStored(g)
-		if showDup && dup > 0 {
-			resp += "~d" + strconv.Itoa(int(dup))
+		cnt := 0
+		if showDup {
+			cnt = int(dup) + 1
 		}
-		st.s.out = append(st.s.out, encPath(idx)+"\x00"+resp)
+		st.s.out = append(st.s.out, encPath(idx)+"\x00"+resp+"\x00"+strconv.Itoa(cnt))
 		st.s.view[encPath(idx)] = viewVal(g, st.c.ca.ed)
 	}
 	return nil
@@ -253,27 +254,46 @@ func (s *suSub) status() string {
 
 func isUpdResp(r string) bool { return strings.HasPrefix(r, "U") || strings.HasPrefix(r, "A") }
 
+// entries are "key\x00resp\x00count": count = inserts represented (dup+1) when the dup count
+// is deterministic (sent after a gate was shut since the last drain), else 0
 func renderSegmentGo(seg []string) string {
-	per := map[string][]string{}
+	type rc struct {
+		r string
+		n int
+	}
+	per := map[string][]rc{}
 	var keys []string
 	for _, e := range seg {
-		i := strings.IndexByte(e, 0)
-		k, r := e[:i], e[i+1:]
+		f := strings.Split(e, "\x00")
+		k, r := f[0], f[1]
+		cnt, _ := strconv.Atoi(f[2])
 		if _, ok := per[k]; !ok {
 			keys = append(keys, k)
 		}
 		l := per[k]
-		if n := len(l); n > 0 && ((isUpdResp(l[n-1]) && isUpdResp(r)) || l[n-1] == r) {
-			l[n-1] = r
+		if n := len(l); n > 0 && isUpdResp(l[n-1].r) && isUpdResp(r) {
+			l[n-1] = rc{r, l[n-1].n + cnt}
+		} else if n > 0 && l[n-1].r == r {
+			if cnt > l[n-1].n {
+				l[n-1].n = cnt
+			}
 		} else {
-			l = append(l, r)
+			l = append(l, rc{r, cnt})
 		}
 		per[k] = l
 	}
 	sort.Strings(keys)
 	var out []string
 	for _, k := range keys {
-		out = append(out, k+":"+strings.Join(per[k], ">"))
+		var rs []string
+		for _, x := range per[k] {
+			if x.n > 1 {
+				rs = append(rs, x.r+"~n"+strconv.Itoa(x.n))
+			} else {
+				rs = append(rs, x.r)
+			}
+		}
+		out = append(out, k+":"+strings.Join(rs, ">"))
 	}
 	return bracket(out)
 }
@@ -752,11 +772,14 @@ func (c *suComp) Gen(r *rand.Rand, tier string) []string {
 			nsub++
 			s.genSub(fmt.Sprintf("s%d", nsub))
 		case x < 30 && len(s.ids) > 0:
-			id := s.ids[r.Intn(len(s.ids))]
-			s.emit("poll %s", encStr(id))
+			// (a re-walk under a shut gate races with the sender taking the first entry)
+			if id := s.ids[r.Intn(len(s.ids))]; !s.gate[id] {
+				s.emit("poll %s", encStr(id))
+			}
 		case x < 33 && len(s.ids) > 0:
-			id := s.ids[r.Intn(len(s.ids))]
-			s.emit("eof %s", encStr(id))
+			if id := s.ids[r.Intn(len(s.ids))]; !s.gate[id] {
+				s.emit("eof %s", encStr(id))
+			}
 		case x < 39 && len(s.ids) > 0 && genProfile == "c08":
 			id := s.ids[r.Intn(len(s.ids))]
 			if s.gate[id] {
